@@ -1,11 +1,13 @@
 """C18 - the poller pool always hands out a running poller of the configured size.
 Theorems: lean/Netpoll/Props/C18.lean (model lean/Netpoll/Manager.lean, invariant lean/Netpoll/ManagerLemmas.lean).
-Tie: T-gen (status enum + step fingerprints of Pick/Run/Close/Reset/Set*/balancers, lean/Netpoll/Tie/Manager.lean)
+Tie: T-gen (status enum + call sites of the manager's methods: Run only behind Pick's status CAS or from Reset, the package-level entry
+     points Initialize/Configure/SetNumLoops/SetLoadBalance and what each calls [HARD] + step fingerprints of Pick/Run/Close/Reset/Set*/balancers
+     [SOFT], lean/Netpoll/Tie/Manager.lean)
    + T-sched (one-actor-at-a-time scheduler over the vmgrPoint schedule points of hooks/manager.patch; those of Pick placed
      semantically by tools/mgrpoints: before every atomic operation on the status word; trace
      conformance of every step against Netpoll.Manager.step) + T-diff of sequential calls + seeded stress,
      all judged by the Lean spec oracle (npdriver mgrspec)."""
-import glob, json, os, shutil
+import glob, json, os, shutil, time
 import common, mgrbuild, mgrrun
 
 LEVEL = 'proof'
@@ -20,13 +22,20 @@ MANIFEST = dict(
          'that a waiting picker always has a lock holder with an enabled step, and (pure arithmetic) that round-robin slot counts differ by '
          'at most one for every start counter below 2^63. The model is tied to /repo on every run: regenerated status enum and step fingerprints (T-gen), '
          'step-by-step trace conformance of the real manager under a controlled scheduler, sequential differential runs and concurrent stress, '
-         'with liveness probes of the real pollers and a descriptor census; the Lean spec oracle judges the implementation\'s replies directly.',
+         'with liveness probes of the real pollers and a descriptor census; the Lean spec oracle judges the implementation\'s replies directly. '
+         'The call sites through which the package reaches the pool (Initialize = one Pick, Run only behind the status CAS or from Reset) are regenerated and compared too.',
     note='Trusted: Lean kernel; axioms propext/Classical.choice/Quot.sound; extractor; harness, scheduler and line protocol. Correspondence is sampling '
          '(evidence lists sites and schedules exercised). Schedule points are add-only vmgrPoint lines applied from hooks/manager.patch to a temporary copy of '
          'poll_manager.go/poll_loadbalance.go at build time (no commit in /repo); the points of manager.Pick are then (re)placed by tools/mgrpoints by what the statements do - one in front of every '
          'sync/atomic operation on the status word (load, the two CAS, any other write = site stw) - so that an edited Pick can still be preempted between any two of its accesses; '
          'if the patched copies do not compile the check falls back to stress + sequential differential with an escalated budget (evidence field sched_mode says which ran). '
-         'Every second stress phase releases up to GOMAXPROCS/2 of its pickers from a spinning barrier (they call Pick directly), the others from a channel barrier. Assumed, with Lean witnesses of what happens otherwise: '
+         'Every second stress phase releases up to GOMAXPROCS/2 of its pickers from a spinning barrier (they call Pick directly), the others from a channel barrier; '
+         'one phase of every stress scenario (iphase) follows a SetNumLoops(4..16) and mixes callers of the package-level netpoll.Initialize() with the first Picks (the global pollmanager is pointed at the '
+         'scenario\'s manager for the duration of the phase); which of the picks were the dropped ones of Initialize is not observable, so the returned-poller multiset of such a phase is judged by the spec '
+         '(every Pick returned a running member of the slice, pool sized, nothing left behind) but not compared with the model\'s, and evenness is not judged there. '
+         'That a goroutine enters manager.Run only behind Pick\'s successful status CAS or from Reset, and that Initialize/Configure/SetNumLoops/SetLoadBalance and every other user of the global pool go '
+         'through Pick/SetNumLoops/SetLoadBalance only, is a HARD T-gen tie (tools/extract/manager.go: every selection of a manager method with its enclosing function, every Run site with its CAS guard, every use of the '
+         'global; lemmas run_entered_only_under_cas_or_reset, unlocked_methods_stay_internal, entry_points, global_pool_used_through_model_alphabet; model lemma model_run_entered_only_by_cas). Assumed, with Lean witnesses of what happens otherwise: '
          'A-open-ok for the claims about what Pick returns (when openPoll fails Run closes every poller, the old pool and the ones it had just opened, '
          'and leaves a closed manager: no slice, numLoops 0, no balancer; Pick cannot report the error and panics on the nil balancer until SetLoadBalance '
          'and SetNumLoops are called again; that nothing is left open is required by the spec oracle after every injected failure), '
@@ -38,7 +47,9 @@ MODULES = ['Netpoll.Props.C18']
 TIE = ['Netpoll.Tie.Manager']
 MIRRORED = ('newManager', 'manager.SetNumLoops', 'manager.SetLoadBalance', 'manager.Close', 'manager.Run', 'manager.Reset',
             'manager.Pick', 'roundRobinLB.Pick', 'roundRobinLB.Rebalance', 'randomLB.Pick', 'randomLB.Rebalance', 'newLoadbalance',
-            'newRoundRobinLB', 'newRandomLB', 'roundRobinLB.LoadBalance', 'randomLB.LoadBalance')
+            'newRoundRobinLB', 'newRandomLB', 'roundRobinLB.LoadBalance', 'randomLB.LoadBalance',
+            # the package-level entry points into the global pool (netpoll_unix.go; Tie.Manager.entry_points says what each calls)
+            'Initialize', 'Configure', 'SetNumLoops', 'SetLoadBalance')
 EXPECTED_FP = os.path.join(common.VERIF, 'lib', 'expected_fp_c18.json')
 
 def fingerprint_changes():
@@ -193,7 +204,9 @@ def shrink(binary, seq, kind, wd):
         return seq
     cur = list(seq); tries = 0
     i = len(cur) - 2
-    while i >= 2 and tries < 60:
+    t0 = time.time()
+    # (time budget: a replay of a scenario that leaves pollers behind waits for each of them to close, load-scaled)
+    while i >= 2 and tries < 60 and time.time() - t0 < 45:
         cand = cur[:i] + cur[i + 1:]
         tries += 1
         r = mgrrun.replay_ops(binary, cand, wd)
